@@ -28,17 +28,20 @@ import (
 func init() { core.Register(&HW{}) }
 
 type WCfg struct {
-	Sim       simrt.Config    `json:"sim"`
-	Chunks    []string        `json:"chunks"` // successive appends
-	Pauses    []time.Duration `json:"pauses"`
-	ReadBuf   int             `json:"read_buffer"`
-	MaxSize   int             `json:"max_event_size"`
-	CutOff    bool            `json:"cut_off"`
-	Workers   int             `json:"workers"`
-	Watch     bool            `json:"watch_writes"`
-	MaintIvl  time.Duration   `json:"maintenance_interval"`
-	ResumeAt  int             `json:"resume_after_line"` // >0: offsets file says the first n lines are committed
-	Initial   int             `json:"initial_chunks"`    // chunks already in the file when file.d starts
+	Sim      simrt.Config    `json:"sim"`
+	Chunks   []string        `json:"chunks"` // successive appends
+	Pauses   []time.Duration `json:"pauses"`
+	ReadBuf  int             `json:"read_buffer"`
+	MaxSize  int             `json:"max_event_size"`
+	CutOff   bool            `json:"cut_off"`
+	Workers  int             `json:"workers"`
+	Watch    bool            `json:"watch_writes"`
+	MaintIvl time.Duration   `json:"maintenance_interval"`
+	ResumeAt int             `json:"resume_after_line"` // >0: offsets file says the first n lines are committed
+	Initial  int             `json:"initial_chunks"`    // chunks already in the file when file.d starts
+	// Forward: the recording controller hands every In call on to a real pipeline (raw decoder, same size
+	// limit), which is allowed to write into the slice it is given - the worker's own buffers.
+	Forward bool `json:"forward_to_pipeline,omitempty"`
 }
 
 func (c *WCfg) SimCfg() *simrt.Config { return &c.Sim }
@@ -69,6 +72,7 @@ func (h *HW) Gen(rng *rand.Rand, tier, prop string) core.Cfg {
 	}
 	c.Workers = core.Between(rng, 1, 2)
 	c.Watch = core.Chance(rng, 0.5)
+	c.Forward = core.Chance(rng, 0.3)
 	c.MaintIvl = core.DurBetween(rng, 100*time.Millisecond, time.Second)
 	// content: lines over a small alphabet with lengths around the buffer size
 	alphabet := []string{"a", "b", "é", "a", "b"}
@@ -177,18 +181,38 @@ type inCall struct {
 type recCtl struct {
 	calls []inCall
 	seq   uint64
+	inner *pipeline.Pipeline // forwarding mode
 }
 
 func (r *recCtl) In(sourceID pipeline.SourceID, sourceName string, offsets pipeline.Offsets, data []byte, isNewSource bool, meta metadata.MetaData) uint64 {
 	r.calls = append(r.calls, inCall{off: pipeline.VerifOffsetsCurrent(offsets), data: append([]byte(nil), data...), src: sourceID})
 	r.seq++
+	if r.inner != nil {
+		r.inner.In(sourceID, sourceName, offsets, data, isNewSource, meta)
+	}
 	return r.seq
 }
-func (r *recCtl) UseSpread()                     {}
-func (r *recCtl) DisableStreams()                {}
-func (r *recCtl) SuggestDecoder(decoder.Type)    {}
-func (r *recCtl) IncReadOps()                    {}
-func (r *recCtl) IncMaxEventSizeExceeded(...string) {}
+
+// stub plugins of the inner pipeline of the forwarding mode
+type fwdInput struct{}
+
+func (fwdInput) Start(pipeline.AnyConfig, *pipeline.InputPluginParams) {}
+func (fwdInput) Stop()                                                 {}
+func (fwdInput) Commit(*pipeline.Event)                                {}
+func (fwdInput) PassEvent(*pipeline.Event) bool                        { return true }
+
+type fwdOutput struct {
+	ctl pipeline.OutputPluginController
+}
+
+func (f *fwdOutput) Start(_ pipeline.AnyConfig, p *pipeline.OutputPluginParams) { f.ctl = p.Controller }
+func (f *fwdOutput) Stop()                                                      {}
+func (f *fwdOutput) Out(e *pipeline.Event)                                      { f.ctl.Commit(e) }
+func (r *recCtl) UseSpread()                                                    {}
+func (r *recCtl) DisableStreams()                                               {}
+func (r *recCtl) SuggestDecoder(decoder.Type)                                   {}
+func (r *recCtl) IncReadOps()                                                   {}
+func (r *recCtl) IncMaxEventSizeExceeded(...string)                             {}
 
 func (h *HW) Run(cc core.Cfg, sim *simrt.Sim) *core.Outcome {
 	cfg := cc.(*WCfg)
@@ -261,6 +285,19 @@ func (h *HW) Run(cc core.Cfg, sim *simrt.Sim) *core.Outcome {
 			plugin, _ := static.Factory()
 			name := fmt.Sprintf("h3w_%d", pipeSeq)
 			settings := &pipeline.Settings{MaxEventSize: cfg.MaxSize, CutOffEventByLimit: cfg.CutOff, AvgEventSize: 128, StreamField: "stream", Decoder: "json"}
+			if cfg.Forward {
+				inner := &pipeline.Settings{
+					Capacity: 16, MaintenanceInterval: 5 * time.Second, EventTimeout: time.Second, MaxEventSize: cfg.MaxSize, CutOffEventByLimit: cfg.CutOff,
+					Antispam:     pipeline.AntispamSettings{Threshold: -1, MaintenanceInterval: 5 * time.Second},
+					AvgEventSize: 128, StreamField: "stream", Decoder: "raw", Pool: pipeline.PoolTypeLowMem, MetaCacheSize: 16,
+					Metric: &pipeline.MetricSettings{HoldDuration: time.Minute},
+				}
+				ip := pipeline.New(name+"_in", inner, prometheus.NewRegistry(), h1pipe.QuietLogger())
+				ip.SetInput(&pipeline.InputPluginInfo{PluginStaticInfo: &pipeline.PluginStaticInfo{Type: "fwdin"}, PluginRuntimeInfo: &pipeline.PluginRuntimeInfo{Plugin: fwdInput{}}})
+				ip.SetOutput(&pipeline.OutputPluginInfo{PluginStaticInfo: &pipeline.PluginStaticInfo{Type: "fwdout"}, PluginRuntimeInfo: &pipeline.PluginRuntimeInfo{Plugin: &fwdOutput{}}})
+				ip.Start()
+				rec.inner = ip
+			}
 			plugin.(pipeline.InputPlugin).Start(conf, &pipeline.InputPluginParams{
 				PluginDefaultParams: pipeline.PluginDefaultParams{PipelineName: name, PipelineSettings: settings, MetricCtl: metric.NewCtl(name, prometheus.NewRegistry(), 0, 0)},
 				Controller:          rec,
